@@ -577,6 +577,9 @@ def _node_representer(dumper, node):
 
     metadata = { key: value for key, value in metadata.items() if key not in dumper.exclude_metadata }
 
+    # what the children can rely on being set by this node (also when it is written as a simple tag below)
+    inherited_metadata = { **parent_metadata, **metadata }
+
     # try to use simple standard tag rather then encoded metadata
     # this is possible if we only have one special thing to handle
     # (e.g. delete is set to True)
@@ -601,7 +604,7 @@ def _node_representer(dumper, node):
 
     pop = False
     if isinstance(node, ComposedNode):
-        dumper.metadata.append({ **parent_metadata, **metadata })
+        dumper.metadata.append(inherited_metadata)
         pop = True
 
     try:
